@@ -35,6 +35,7 @@ let dispatch (name : string) (args : M.n list) : M.n list list =
   | "OBJ" -> M.run_obj args
   | "LC3" -> M.run_lc3 args
   | "SRC" -> M.run_src args
+  | "DBG" -> M.run_dbg args
   | _ -> failwith ("unknown case kind " ^ name)
 
 let () =
